@@ -432,6 +432,18 @@ func (g *gen) drainReads(k int) {
 func (g *gen) tail() {
 	g.add("census")
 	if !g.muxClosed && g.p(75) {
+		// sometimes a client has stopped reading and a write towards it is parked in the socket when Close arrives
+		// (histories without write buffering only: filtered in flat)
+		if oks, hs := g.okConns(), g.openHandles(); len(oks) > 0 && len(hs) > 0 && g.p(30) {
+			cn := oks[g.rnd(len(oks))]
+			for _, h := range hs {
+				if h.u == cn.ufrag && h.is6 == cn.is6 && h.ip == cn.lip {
+					g.add("wrstall", strconv.Itoa(h.id), strconv.Itoa(cn.id), Hex(cn.raddr))
+					g.c.Count("op:wrstall-then-muxclose")
+					break
+				}
+			}
+		}
 		g.opMuxClose()
 	}
 	if g.muxClosed {
@@ -462,6 +474,9 @@ func (g *gen) tail() {
 func (g *gen) flat(cfg []string) []string {
 	out := append([]string(nil), cfg...)
 	for _, o := range g.ops {
+		if len(o) > 0 && o[0] == "wrstall" && cfg[2] == "1" {
+			continue // with write buffering WriteTo never parks in the socket
+		}
 		out = append(out, ";")
 		out = append(out, o...)
 	}
